@@ -7,6 +7,7 @@ CONSTANTS
   InitSet = {3}
   InitSigner = 3
   MaxNumber = 1000
+  UpgradeSets = {}
   Depth = 14
 INVARIANTS Emit
 CHECK_DEADLOCK FALSE
